@@ -5,6 +5,7 @@ import (
 	"context"
 	"fmt"
 	"runtime"
+	"sync"
 	"sort"
 
 	protocol "github.com/hujm2023/go-sms-protocol"
@@ -538,6 +539,74 @@ func init() {
 						}
 					}
 					c.Cover("comparator/" + proto)
+				},
+			},
+			{
+				// several Build calls at the same time, each on its own builder and request (a gateway serving many
+				// sessions): every one must return the reference winner, and the race detector watches whatever the
+				// calls share behind the scenes
+				Name: "parallelbuilds", Race: true, N: q(300, 8000),
+				GoMaxProcs: func(shard int) int { return []int{2, 4, 8, 16}[shard%4] },
+				Run: func(c *fw.Case) {
+					G := []int{2, 4, 8, 16}[c.Idx%4]
+					reqs := make([][]*batchReq, G)
+					for g := range reqs {
+						for k := 0; k < 6; k++ {
+							b := genBatchReq(c.R)
+							if len(b.cands) < 2 && c.R.Bool() {
+								b = genBatchReq(c.R)
+							}
+							reqs[g] = append(reqs[g], b)
+						}
+					}
+					type res struct {
+						coding, parts int
+						err          bool
+						dig          string
+					}
+					run := func(b *batchReq) res {
+						list := make([]datacoding.ProtocolDataCoding, len(b.cands))
+						for i, n := range b.cands {
+							list[i] = mkCoding(b.proto, n)
+						}
+						enc := protocol.NewBatchDataCodingEncoder().Protocol(protocol.Protocol(b.proto)).Content(b.content, b.ref).DataCodings(list)
+						if b.origin != -1000 {
+							enc = enc.OriginDataCoding(mkCoding(b.proto, b.origin))
+						}
+						parts, f, err := enc.Build(context.Background())
+						r := res{coding: -1, parts: len(parts), err: err != nil, dig: digestParts(parts, nil)}
+						if f != nil {
+							r.coding = f.ToInt()
+						}
+						return r
+					}
+					got := make([][]res, G)
+					var wg sync.WaitGroup
+					start := make(chan struct{})
+					for g := 0; g < G; g++ {
+						wg.Add(1)
+						go func(g int) {
+							defer wg.Done()
+							<-start
+							for _, b := range reqs[g] {
+								got[g] = append(got[g], run(b))
+							}
+						}(g)
+					}
+					close(start)
+					wg.Wait()
+					c.Evals(uint64(G * 6))
+					for g := 0; g < G; g++ {
+						for k, b := range reqs[g] {
+							alone := run(b) // the same request, now with nothing else going on
+							if k < len(got[g]) && got[g][k] != alone {
+								c.Failf("differs-when-run-in-parallel/"+b.proto, "Build of %s while %d other goroutines were building: coding %d, %d parts, err=%v; alone: coding %d, %d parts, err=%v",
+									b.String(), G-1, got[g][k].coding, got[g][k].parts, got[g][k].err, alone.coding, alone.parts, alone.err)
+								return
+							}
+						}
+					}
+					c.Cover(fmt.Sprintf("parallelbuilds/G%d", G))
 				},
 			},
 			{
